@@ -13,7 +13,8 @@ META = dict(
               "decision are compared with a history-based reference written from the statement; inductive step harness from an "
               "ARBITRARY closed state (ghost history of <= 2 live counted failures of either class + <= 2 stale entries "
               "still held by the class bucket, all ages solver reals): one operation must agree with the reference and "
-              "re-establish the representation, which extends the claim to histories of any length for thresholds <= 3",
+              "re-establish the representation; likewise from an arbitrary open / half-open state (history must stay empty, "
+              "2 operations), which extends the claim to histories of any length for thresholds <= 3",
         thorough="K=5",
     ),
     assumptions=["floats as reals (exact boundary ages: age == window_s has aged out, as documented)",
@@ -23,7 +24,7 @@ META = dict(
 )
 GOALS = ["opened_by_global_threshold", "opened_by_class_threshold", "aged_out_failure_ignored", "uncounted_class_ignored",
          "boundary_age_equal_window", "half_open_probe", "closed_after_probe", "reopened_after_failed_probe",
-         "empty_trip_on", "failure_before_transition_ignored", "step_opened_by_class", "step_stale_bucket_entry", "step_aged_out"]
+         "empty_trip_on", "failure_before_transition_ignored", "step_opened_by_class", "step_stale_bucket_entry", "step_aged_out", "step_open_covered"]
 CLASSES = [EC.TRANSIENT, EC.RATE_LIMIT, EC.PERMANENT]
 OPS = ["allow", "success", "cancel", "fail_T", "fail_R", "fail_P"]
 
@@ -256,6 +257,58 @@ def h_step(sym, params):
     return None
 
 
+def h_step_open(sym, params):
+    """Inductive step from an arbitrary OPEN or HALF-OPEN state.  Representation invariant there: the failure history is
+    empty, `opened_at` <= now, a probe can only be in flight while half-open.  Every operation must agree with the
+    reference, keep the history empty while not closed, and hand over an empty history when it closes."""
+    thr = sym.int("thr", 1, 3)
+    window = sym.real("window", lo=0)
+    recovery = sym.real("recovery", lo=0)
+    sym.assume(window > 0)
+    sym.assume(recovery > 0)
+    opened_at = sym.real("opened_at", lo=0)
+    now = [opened_at + sym.real("since", lo=0)]
+    init = sym.choice("init", ["open", "half", "half_probe"])
+    b = CircuitBreaker(failure_threshold=thr, window_s=window, recovery_timeout_s=recovery, clock=lambda: now[0])
+    ref = RefBreaker(thr, {}, {EC.TRANSIENT, EC.SERVER_ERROR}, window, recovery)
+    b._state = CircuitState.OPEN if init == "open" else CircuitState.HALF_OPEN
+    b._opened_at = opened_at
+    b._probe_in_flight = init == "half_probe"
+    ref.state = "open" if init == "open" else "half_open"
+    ref.opened_at = opened_at
+    ref.probe = init == "half_probe"
+    for j in range(params["K"]):
+        op = OPS[params["pin_op"]] if j == 0 else sym.choice(f"op{j}", OPS)
+        if j:
+            now[0] = now[0] + sym.real(f"adv{j}", lo=0)
+        t = now[0]
+        if op == "allow":
+            d = b.allow()
+            got, exp = (d.allowed, d.state.value, d.event), ref.allow(t)
+        elif op == "success":
+            got, exp = b.record_success(), ref.success(t)
+        elif op == "cancel":
+            got, exp = b.record_cancel(), ref.cancel(t)
+        else:
+            k = {"fail_T": EC.TRANSIENT, "fail_R": EC.RATE_LIMIT, "fail_P": EC.PERMANENT}[op]
+            got, exp = b.record_failure(k), ref.fail(k, t)
+        if got != exp:
+            return ("step_open:result", f"from {init}: step {j} {op} returned {got}, reference {exp}")
+        if b.state.value != ref.state:
+            return ("step_open:state", f"from {init}: after step {j} {op} breaker is {b.state.value}, reference {ref.state}")
+        if b.state is not CircuitState.CLOSED and (b._failures or any(b._class_failures.values())):
+            return ("step_open:history_not_empty", f"from {init}: after {op} the breaker is {b.state.value} but keeps failures "
+                                                   f"{list(b._failures)} (they would count after the next close)")
+        if b.state is CircuitState.CLOSED and [x for x in b._failures] != [x for (x, _c) in ref.hist]:
+            return ("step_open:history_after_close", f"from {init}: closed with history {list(b._failures)}, reference {ref.hist}")
+        if b._probe_in_flight and b.state is not CircuitState.HALF_OPEN:
+            return ("step_open:probe_flag", f"probe flag set while {b.state.value}")
+        if b.state is CircuitState.OPEN and b._opened_at != ref.opened_at:
+            return ("step_open:opened_at", f"opened_at {b._opened_at}, reference {ref.opened_at}")
+    sym.cover("step_open_covered")
+    return None
+
+
 def jobs(tier):
     q = tier == "quick"
     K = 4 if q else 5
@@ -265,6 +318,9 @@ def jobs(tier):
             out.append(dict(name=f"hist:K={K}:{OPS[a]},{OPS[b_]}", harness="rv.props.c06:h_hist",
                             params=dict(K=K, pin_ops=[a, b_]), max_wall_s=600 if q else 3000,
                             weight=3 if OPS[a].startswith("fail") else 1))
+    for o in range(len(OPS)):
+        out.append(dict(name=f"step:open:{OPS[o]}", harness="rv.props.c06:h_step_open", params=dict(pin_op=o, K=2 if q else 3),
+                        max_wall_s=600 if q else 3000, weight=1))
     for o in range(len(OPS)):
         out.append(dict(name=f"step:closed:{OPS[o]}", harness="rv.props.c06:h_step", params=dict(pin_op=o),
                         max_wall_s=600 if q else 3000, weight=2))
